@@ -127,6 +127,7 @@ theorem sameDesc_setChild (g : Val → Val) (i : Nat) (a ch : Val) (hc : Val.chi
   | zstk f => simp [Val.child] at hc
   | zcnd f => simp [Val.child] at hc
   | anys xs => simp [Val.child] at hc
+  | opv o => simp [Val.child] at hc
 
 /-- **a difference at any depth is a difference of the whole** -/
 theorem sameDesc_modifyAt (g : Val → Val) : ∀ (p : List Nat) (a x : Val), Val.at? p a = some x →
